@@ -141,3 +141,33 @@ contract(
     ],
     raises={"ValueError": "%s and not any(u == flow_state.uid for u in %s.child_flow_uids)" % (UNLINK.replace("old(", "(", 1), PARENT)},
 )
+
+# ---------------------------------------------------------------------------------------------------------------------------
+# DEACTIVATE: "... and stops when its last activator ends" - the reference counting at the top of _abort_flow / _finish_flow
+# ---------------------------------------------------------------------------------------------------------------------------
+"""  (the enclosing `if deactivate_flow and _is_reference_activated_flow(..)` statement - one reference released, early return while other
+  activators remain - was tried as a block of its own and left: its loop needs the shape of the state re-established after every opaque
+  recursive call, and those obligations did not discharge in time; bounded native check only)
+  DEACT-CHILD the body of the loop that runs when the LAST reference is released: a child that is an instance of the same flow is aborted
+              with deactivate_flow=True exactly once and its own count is cleared; any other child is left alone"""
+REF_ACT = ("(flow_state.activated > 0 and not is_none(flow_state.parent_uid) and "
+           " flow_state.flow_id != val(state.flow_states, flow_state.parent_uid).flow_id)")
+for _fn in ("_abort_flow", "_finish_flow"):
+    contract(
+        SM, _fn, prop="C06", block=("child_flow = state.flow_states[child_flow_uid]", "<end>"), loop_body=True,
+        vars={"state": "V", "flow_state": "V", "child_flow_uid": "V", "matching_scores": "V", "child_flow": "V"},
+        ghost_lists=["aborted", "flags"],
+        must_reach=["child_flow.activated = 0"],
+        opaque_here={"_abort_flow": dict(log="aborted", log_arg=1, logs=[("flags", 3)], raises=[],
+                                         ensures=["is_obj(arg1)"],
+                                         note="the recursive _abort_flow(state, child, scores, True) call: arbitrary effect (the child stays an object), "
+                                              "recorded in `aborted` / `flags`")},
+        requires=STATE + ONE_FS + ["is_str(child_flow_uid)", "has(state.flow_states, child_flow_uid)"],
+        ensures=[
+            "implies(old(val(state.flow_states, child_flow_uid).flow_id == flow_state.flow_id), llen(aborted) == 1 and "
+            "        item(aborted, 0) is old(val(state.flow_states, child_flow_uid)) and item(flags, 0) is True and "
+            "        old(val(state.flow_states, child_flow_uid)).activated == 0)",
+            "implies(old(val(state.flow_states, child_flow_uid).flow_id != flow_state.flow_id), llen(aborted) == 0)",
+        ],
+        raises={},
+    )
